@@ -18,24 +18,34 @@ def lattice(g: dict, meta: dict | None = None) -> LatticeMaze:
     return LatticeMaze(connection_list=M.g_cl(g), generation_meta=meta)
 
 
-def targeted(g: dict, s, e, meta: dict | None = None) -> TargetedLatticeMaze:
+def targeted(g: dict, s, e, meta: dict | None = None, dtype=None) -> TargetedLatticeMaze:
     return TargetedLatticeMaze(
-        connection_list=M.g_cl(g), start_pos=np.array(s), end_pos=np.array(e), generation_meta=meta
+        connection_list=M.g_cl(g), start_pos=np.array(s, dtype=dtype), end_pos=np.array(e, dtype=dtype), generation_meta=meta
     )
 
 
-def solved(g: dict, sol, meta: dict | None = None) -> SolvedMaze:
-    return SolvedMaze(connection_list=M.g_cl(g), solution=np.array(sol), generation_meta=meta)
+def solved(g: dict, sol, meta: dict | None = None, dtype=None) -> SolvedMaze:
+    return SolvedMaze(connection_list=M.g_cl(g), solution=np.array(sol, dtype=dtype), generation_meta=meta)
 
 
-def make_kind(kind: str, g: dict, sol):
+def make_kind(kind: str, g: dict, sol, dtype=None):
     if kind == "lattice":
         return lattice(g)
     if kind == "targeted":
-        return targeted(g, sol[0], sol[-1])
+        return targeted(g, sol[0], sol[-1], dtype=dtype)
     if kind == "solved":
-        return solved(g, sol)
+        return solved(g, sol, dtype=dtype)
     raise ValueError(kind)
+
+
+def provenance(case, g: dict):
+    """integer width of the coordinate arrays a maze is built with - a pure function of the case, so replay is exact. The value of a
+    maze does not depend on it: the library's own minimal-format loader hands out int8 solutions, generators hand out int64."""
+    from mzverif.core import digest
+
+    if max(g["r"], g["c"]) > 127:
+        return None
+    return (None, None, "int8", "int8", "int16", "int32")[digest(case) % 6]
 
 
 KIND_CLASS = {"lattice": LatticeMaze, "targeted": TargetedLatticeMaze, "solved": SolvedMaze}
